@@ -3,7 +3,7 @@
 stage 1  TLC checks the Model of spec/Pool.tla (urlopen / _get_conn / _put_conn / response disposal, one
          action per real step) against the Rules invariants NoDuplicate, SlotsRestored, NoOrphanSocket,
          BlockBound, OnlyUrllib3Errors, InterruptsPropagate for every history within the bounds; per-action
-         coverage is read back (vacuity gate); named deviations (the recorded defect D14 and design-level
+         coverage is read back (vacuity gate); named deviations (the recorded defect C01-F1 and design-level
          mutants) must make TLC report the expected clause, otherwise the invariants do not bite.
 stage 2  TLC emits every finished history (configuration, per-attempt outcomes, disposals, server cuts) with
          the Model's expected observations, sharded over (configuration, first outcome).
@@ -107,7 +107,7 @@ THOROUGH_PLANS = [
     ("2req", dict(maxreqs=2, first="MCTiny", later="MCTiny", disp="MCDispSmall", held=1, cuts="TRUE",
                   rets='{"F", "1"}', ns="{1}", routes='{"direct"}')),
     ("2req-wide", dict(maxreqs=2, first="MCTiny", later="MCTiny", disp="MCDispSmall", held=1, cuts="TRUE",
-                       rets='{"0", "R2"}')),
+                       rets='{"0", "R2"}', ns="{2}")),
     ("3req", dict(maxreqs=3, first="MCMicro", later="MCMicro", disp="MCDispMicro", held=1, cuts="TRUE",
                   rets='{"F", "1"}', ns="{1}", routes='{"direct"}', modes="{2, 3, 4}")),
 ]
@@ -115,7 +115,7 @@ THOROUGH_PLANS = [
 SMALL = dict(maxreqs=2, first="MCSmall", later="MCTiny", disp="MCDispAll", held=1, cuts="FALSE", ns="{1}",
              rets='{"F", "1"}', routes='{"direct"}')
 DEVIATIONS = [
-    ("MCD14", "SlotsRestored", SMALL),
+    ("MCF1", "SlotsRestored", SMALL),
     ("MCMutCloseNoRelease", "SlotsRestored", SMALL),
     ("MCMutFinallyNoRelease", "SlotsRestored", SMALL),
     ("MCMutExcept", "OnlyUrllib3Errors", SMALL),
@@ -233,7 +233,7 @@ class Judge:
                 prefix = r["events"][:pos] if len(self.bad) < 200 else None
                 self.bad.append(json.dumps([clause, pos, sc, facts_of(sc, r["events"], clause), prefix]))
             elif withexp and any(st.get("dev") for st in sc["steps"]):
-                # the history passes a point where a recorded deviation (D14) changes what follows: the Model's
+                # the history passes a point where a recorded deviation (C01-F1) changes what follows: the Model's
                 # expectations describe the repaired design there; only the Rules verdict applies
                 self.skipped_dev += 1
             elif withexp:
